@@ -532,6 +532,8 @@ def hunts(quick, focus, timeout):
     POST = {'SCA': [[['r_min', 2.5]], [['a', 1.0], ['r_max', 2.5], ['r_min', 0.5]], [['r_min', 7]]],
             'BA': [[['f_min', 3.0]], [['A', 0.9], ['r', 0.1]], [['f_min', 5]]],
             'PSO': [[['w', 0.4], ['c1', 2.0]]], 'HS': [[['HMCR', 0.9], ['bw', 2.0]]], 'GSA': [[['G', 1.5]]], 'CS': [[['p', 0.5]]],
+            'IHS': [[['PAR_min', 0.8], ['PAR_max', 0.95], ['bw_min', 2.0], ['bw_max', 5.0]], [['PAR_min', 0.2], ['PAR_max', 0.3]]],
+            'AIWPSO': [[['w_min', 0.8], ['w_max', 0.95]], [['w_max', 0.5], ['w_min', 0.2]]],
             'FPA': [[['p', 0.5], ['eta', 0.7]]], 'HC': [[['r_var', 0.3]]], 'FA': [[['gamma', 0.7]]], 'ABC': [[['n_trials', 3]]]}
     for o in opts:
         for i, post in enumerate(POST.get(o, [])):
